@@ -628,7 +628,8 @@ func Run(c *vf.Ctx) {
 	defer func() { c.Set("validation_histories_wall_s", time.Since(th).Seconds()) }()
 	hugeFiles(c, nil)
 	legacySiafunds(c, nil)
-	c.RequireFeature("blocks_mutated", "mutant_rejected", "mutant_accepted", "huge_file_contracts_formed", "huge_file_probes", "legacy_siafund_probes")
+	legacyMint(c, nil)
+	c.RequireFeature("blocks_mutated", "mutant_rejected", "mutant_accepted", "huge_file_contracts_formed", "huge_file_probes", "legacy_siafund_probes", "legacy_mint_probes", "legacy_mint_control_accepted")
 }
 
 // Replay re-executes one recorded mutation.
@@ -639,6 +640,11 @@ func Replay(c *vf.Ctx, cs Case) {
 	}
 	if cs.Target == "legacy-siafunds" {
 		legacySiafunds(c, &cs)
+		return
+	}
+	if cs.Target == "legacy-mint" {
+		cs.Path = strings.TrimSuffix(strings.TrimSuffix(cs.Path, " (minting block)"), " (control: one of them)")
+		legacyMint(c, &cs)
 		return
 	}
 	tc := chain.TraceCase{Model: "union", Network: cs.Network, Seed: cs.Seed, Trace: cs.Trace}
